@@ -299,9 +299,13 @@ class Gen:
 
     def build(self):
         rng, T = self.rng, self.tree
-        nb = rng.choice([1, 1, 2])
+        nb = rng.choice([1, 1, 2, 2])
+        # two bases: half of the time the FIRST base's name has the second's name as a proper prefix ("Base7_f", "Base7"),
+        # so that a path parser comparing a prefix of the name resolves /Base7/... to the wrong base
+        second = self.name("Base")[:28]
+        names = [second + "_f", second] if (nb == 2 and rng.random() < 0.5) else [self.name("Base") for _ in range(nb)]
         for bi in range(nb):
-            bn = self.name("Base")
+            bn = names[bi]
             base, = self.create("base %s" % bn, T.root, [(T.root, "CGNSBase_t", bn, None)])
             B = bi + 1
             zones = []
@@ -596,6 +600,14 @@ class Gen:
         k = rng.choice(kinds)
         self.stats["spellings"][k] = self.stats["spellings"].get(k, 0) + 1
         self.stats["targets"] += 1
+        probe = rng.random() < 0.4
+        if probe:
+            # reference: the label+index spelling from the base (resets every piece of navigation state), then the
+            # context-dependent readers; the same readers are called again after the spelling under test
+            self.npair = getattr(self, "npair", 0) + 1
+            self.emit("goto %d %s" % (B, self.mixed_pairs(steps, "idx")), kind="nav", ok=True, why="probe_ref")
+            self.emit("probe", kind="probe_ref", pair=self.npair, impl_only=True)
+            self.stats["probe_pairs"] = self.stats.get("probe_pairs", 0) + 1
         if k in ("goto_idx", "goto_name", "goto_mixed"):
             line = "goto %d %s" % (B, self.mixed_pairs(steps, k[5:]))
             self.emit(line, kind="nav", ok=True, why=k, known_key=self.known_key(n, self.last_named))
@@ -645,6 +657,8 @@ class Gen:
                     self.emit("gopath %s" % p, kind="nav", ok=True, why=k, known_key=self.known_key(n, [nm for _, _, nm in down]))
                 else:
                     self.emit("goto %d %s" % (B, self.mixed_pairs(steps, "idx")), kind="nav", ok=True, why="goto_idx")
+        if probe:
+            self.emit("probe", kind="probe", pair=self.npair, impl_only=True, why=k)
         self.observe(n, mode, k)
 
     def fail_nav(self, mode):
@@ -832,6 +846,7 @@ def judge(script, il, outcome, ml_by_cmd, known=None):
     -> (failures, divergences); each a dict naming the command index"""
     fails, divs = [], []
     skip = False
+    refs = {}
     for i, (line, exp) in enumerate(script):
         got = il[i] if i < len(il) else None
         mod = ml_by_cmd.get(i)
@@ -863,8 +878,15 @@ def judge(script, il, outcome, ml_by_cmd, known=None):
                 divs.append({"at": i, "cmd": line, "model": mod, "impl": got})
             elif mod is not None and mod != got:
                 divs.append({"at": i, "cmd": line, "model": mod, "impl": got, "status_code_only": True})
-        elif skip and kind in ("where", "mark", "readmark", "where_any"):
+        elif skip and kind in ("where", "mark", "readmark", "where_any", "probe"):
             continue
+        elif kind == "probe_ref":
+            refs[exp["pair"]] = got
+        elif kind == "probe":
+            if exp["pair"] in refs and refs[exp["pair"]] != got:
+                fails.append({"at": i, "cmd": line, "what": "node-context readers answer differently at the same node depending on how "
+                              "the position was reached (label+index from the base vs this spelling)",
+                              "got": got, "expected": refs[exp["pair"]], "why": exp.get("why")})
         elif kind == "where":
             if got != exp["expect"]:
                 fails.append({"at": i, "cmd": line, "what": "cg_where differs from the target's label/index path" if exp["expect"] != "w 1"
